@@ -4,7 +4,7 @@ import NomtModel.Store.CacheSetLemmas
 # C13 (topic: the caches are transparent) — results do not depend on cache sizes, shard counts, pinned levels, prepopulation
 
 Mirror (`Store/CacheLru.lean`, `Store/CacheModel.lean`, tied to the real `PageCache` / `LeafCache` / `PageSet` by the
-`caches` differential through hook H20): the `lru` crate as nomt uses it, `CacheShardLocked` (pinned map + LRU),
+`caches` differential through hook H21): the `lru` crate as nomt uses it, `CacheShardLocked` (pinned map + LRU),
 `PageCache::{new, get, insert, batch_update, evict, shard_index_for}`, `make_shards`, `LeafCache::{new, get, insert,
 evict}`, `PageSet`.  `Store/CacheOps.lean` defines the reference stores (page id → latest committed page; page number →
 leaf stored there), the cached read paths (`pageRead`, `leafLookup`, `leafPeek`) and the operation sequences.
@@ -76,6 +76,27 @@ theorem T13_leaf_cache_transparent {L : Type} (assign : Nat → Nat) (s : LState
     ∃ s', lrun {} assign s ops = .ok (s', (lrefRun s.disk ops).2) ∧ s'.disk = (lrefRun s.disk ops).1 ∧
       LCoh s'.lc assign s'.disk s'.dirty ∧ LSame s.lc s'.lc :=
   lrun_ok assign s hn h ops hp
+
+/-- **T13_leaf_cache_config_independent** (C13 for `leaf_cache_size` and the shard hashing): the same protocol-conforming
+operation sequence run over ANY two fresh leaf caches — any shard counts ≥ 1, any sizes (0 included), any two
+`RandomState` shard assignments — returns the same leaves and leaves the same store. -/
+theorem T13_leaf_cache_config_independent {L : Type} (dbg₁ dbg₂ : Bool) (disk : LDisk L) (assign₁ assign₂ : Nat → Nat)
+    (n₁ size₁ n₂ size₂ : Nat) (hn₁ : 1 ≤ n₁) (hn₂ : 1 ≤ n₂)
+    (hs₁ : size₁ * 1024 * 1024 ≤ usizeMax) (hs₂ : size₂ * 1024 * 1024 ≤ usizeMax)
+    (ops : List (LOp L)) (hp : LProto disk (fun _ => false) ops) :
+    ∃ lc₁ lc₂ s₁ s₂ o,
+      LeafCache.new dbg₁ n₁ size₁ = .ok lc₁ ∧ LeafCache.new dbg₂ n₂ size₂ = .ok lc₂ ∧
+      lrun {} assign₁ ⟨lc₁, disk, fun _ => false⟩ ops = .ok (s₁, o) ∧
+      lrun {} assign₂ ⟨lc₂, disk, fun _ => false⟩ ops = .ok (s₂, o) ∧ s₁.disk = s₂.disk := by
+  have e₁ := LeafCache.new_ok (L := L) dbg₁ n₁ size₁ hn₁ hs₁
+  have e₂ := LeafCache.new_ok (L := L) dbg₂ n₂ size₂ hn₂ hs₂
+  obtain ⟨s₁, r₁, d₁, _, _⟩ := lrun_ok assign₁
+    ⟨{ shards := List.replicate n₁ { cache := Lru.unbounded, maxItems := size₁ * 256 / n₁ } }, disk, fun _ => false⟩
+    (by simpa using hn₁) (by intro pn l _ hl; rw [LeafCache.fresh_view] at hl; cases hl) ops hp
+  obtain ⟨s₂, r₂, d₂, _, _⟩ := lrun_ok assign₂
+    ⟨{ shards := List.replicate n₂ { cache := Lru.unbounded, maxItems := size₂ * 256 / n₂ } }, disk, fun _ => false⟩
+    (by simpa using hn₂) (by intro pn l _ hl; rw [LeafCache.fresh_view] at hl; cases hl) ops hp
+  exact ⟨_, _, s₁, s₂, _, e₁, e₂, r₁, r₂, by rw [d₁, d₂]⟩
 
 /-- **T13_leaf_sync_meets_protocol**: a sync as the leaf stage performs it — all new leaves written (at pairwise
 distinct page numbers, each fresh or RECYCLED: no condition relating them to earlier syncs or to the cache contents),
@@ -201,6 +222,15 @@ example : LProto (fun _ => (0 : Nat)) (fun _ => false) ([.lookup 5, .peek 6] ++ 
     ⟨{ shards := List.replicate 3 { cache := Lru.unbounded, maxItems := 0 } }, fun _ => (0 : Nat), fun _ => false⟩
     (by simp) (by intro pn l _ hl; rw [LeafCache.fresh_view] at hl; cases hl) _ hp
   exact ⟨s', by rw [r]; rfl⟩
+
+/-- T13_leaf_cache_config_independent: 1 shard × 0 MiB against 32 shards × 1 MiB with another hashing -/
+example : ∃ lc₁ lc₂ s₁ s₂ o,
+    LeafCache.new true 1 0 = .ok lc₁ ∧ LeafCache.new false 32 1 = .ok lc₂ ∧
+    lrun {} id ⟨lc₁, fun pn => pn + 100, fun _ => false⟩ ([.lookup 5] ++ (syncOps [(5, 9)] ++ [.lookup 5])) = .ok (s₁, o) ∧
+    lrun {} (fun pn => 3 * pn + 1) ⟨lc₂, fun pn => pn + 100, fun _ => false⟩ ([.lookup 5] ++ (syncOps [(5, 9)] ++ [.lookup 5])) = .ok (s₂, o) ∧
+    s₁.disk = s₂.disk :=
+  T13_leaf_cache_config_independent true false _ _ _ 1 0 32 1 (by decide) (by decide) (by decide) (by decide) _
+    ⟨rfl, T13_leaf_sync_meets_protocol _ _ [(5, 9)] [.lookup 5] (by decide) (by simp [LProto])⟩
 
 /-- T13_cache_budget / T13_evict_keeps_most_recent: four entries, limit 2 -/
 example : ((⟨[(1, 10), (2, 20), (3, 30), (4, 40)], usizeMax - 1⟩ : Lru Nat Nat).evict 2).items = [(1, 10), (2, 20)] := by
